@@ -758,8 +758,16 @@ pub fn contradiction(ctx : &Ctx, out : &mut Out)
     for i in 0..n
     {
         let mut r = rng.fork(i as u64);
-        let sc = scenario::gen_scenario(&mut r, &GenParams{max_rules : if ctx.thorough { 7 } else { 5 }, flavor : Flavor::Undeclared});
+        let mut sc = scenario::gen_scenario(&mut r, &GenParams{max_rules : if ctx.thorough { 7 } else { 5 }, flavor : Flavor::Undeclared});
         if !sc.well_formed() { continue; }
+        // in a third of the cases one output is nothing but the undeclared input
+        if r.chance(1, 3)
+        {
+            if let Some(rule) = sc.rules.iter_mut().find(|rule| rule.script.iter().any(|l| l.contains("@undeclared")))
+            {
+                if let Some(line) = rule.script.iter_mut().find(|l| l.contains("@undeclared")) { let t = line.split(' ').nth(1).unwrap().to_string(); *line = format!("gen {} @undeclared", t); }
+            }
+        }
         let culprit = match sc.rules.iter().position(|rule| rule.script.iter().any(|l| l.contains("@undeclared"))) { Some(k) => k, None => continue };
         let driver = Driver::new(ClockMode::Fine, 1_000_000);
         let mut ops : Vec<Op> = vec![];
@@ -770,14 +778,17 @@ pub fn contradiction(ctx : &Ctx, out : &mut Out)
         let mut leaves : BTreeSet<String> = BTreeSet::new();
         for rule in &sc.rules { for s in &rule.sources { if sc.owner(s).is_none() { leaves.insert(s.clone()); } } }
         for l in leaves.iter() { user(Op::Write(l.clone(), r.pick(scenario::CONTENTS).as_bytes().to_vec()), &mut ops, &mut obs); }
-        user(Op::Write("undeclared".to_string(), b"U0".to_vec()), &mut ops, &mut obs);
+        // the undeclared input starts out empty in a third of the cases (so that a target is recorded as an
+        // empty file, e.g. a warnings log), otherwise "U0"
+        let u0 : Vec<u8> = if r.chance(1, 3) { vec![] } else { b"U0".to_vec() };
+        user(Op::Write("undeclared".to_string(), u0.clone()), &mut ops, &mut obs);
         let first = invoke(Op::Build(None), &mut ops, &mut obs);
         if !first.verdict.is_ok() { out.count("first-build-not-ok"); emit_case(out, false, 1_000_000, &ops, &obs, false); continue; }
         let recorded = disk_files(&first.after);
 
         // the undeclared input changes; a re-execution of the culprit is forced
-        user(Op::Write("undeclared".to_string(), if r.chance(1, 8) { b"U0".to_vec() } else { b"U1".to_vec() }), &mut ops, &mut obs);
-        let changed_input = driver.sys.read("undeclared") != Some(b"U0".to_vec());
+        user(Op::Write("undeclared".to_string(), if r.chance(1, 8) { u0.clone() } else { b"U1".to_vec() }), &mut ops, &mut obs);
+        let changed_input = driver.sys.read("undeclared") != Some(u0.clone());
         let victim = r.pick(&sc.rules[culprit].targets).clone();
         match r.below(3)
         {
